@@ -28,7 +28,7 @@ fn c17_1a_waveform_range_and_shape() {
     kani::cover!(matches!(w, Waveform::Triangle) && v < 0.0);
 }
 
-// @ob id=C17.1b strength=bounded tier=quick bound="dt in {1, 1/2, 1/4, 1/1024} (dt*frequency exact), frequency in [0, 4096]; waveform Triangle/Saw/Pulse (Sine via the SIN axioms in C17.1a)" fn=modulator/lfo.rs::<Lfo as Modulator>::update
+// @ob id=C17.1b strength=bounded tier=quick bound="dt in {1, 1/2, 1/4, 1/1024} (dt*frequency exact), frequency in [0, 4096]; frequency, amplitude, offset restricted to 8 significant mantissa bits; waveform Triangle/Saw/Pulse (Sine via the SIN axioms in C17.1a)" fn=modulator/lfo.rs::<Lfo as Modulator>::update
 // @req phase in [0,1), fixed frequency f >= 0, amplitude a and offset o with |.| <= 1e3
 // @ens phase' == fract(phase + dt*f) in [0,1); value' == o + a * waveform(phase') and |value' - o| <= |a| + one ulp of the offset (stays within offset +/- |amplitude| to rounding)
 #[kani::proof]
@@ -38,6 +38,8 @@ fn c17_1b_lfo_update() {
     let f = any_f64_in(0.0, 4096.0);
     let a = any_f64_in(-1.0e3, 1.0e3);
     let o = any_f64_in(-1.0e3, 1.0e3);
+    let m8 = (1u64 << 44) - 1;
+    kani::assume(a.to_bits() & m8 == 0 && o.to_bits() & m8 == 0 && f.to_bits() & m8 == 0);
     let wf = match kani::any::<u8>() % 3 { 0 => Waveform::Triangle, 1 => Waveform::Saw, _ => Waveform::Pulse { width: any_f64_in(0.0, 1.0) } };
     let ph = any_f64_in(0.0, 0.9999999999);
     let mut l = Lfo { waveform: wf, frequency: Parameter::new(Value::Fixed(f), 2.0), amplitude: Parameter::new(Value::Fixed(a), 1.0), offset: Parameter::new(Value::Fixed(o), 0.0), command_readers: r, shared: Arc::new(LfoShared::new()), phase: ph, value: 0.0 };
